@@ -201,14 +201,17 @@ fn run_case(seed: u64, idx: u64, _tier: Tier, out: &mut CaseOut) {
             }
             let wi = *rng.pick(&words);
             let nkids = rng.range(1, 2);
+            // (a <p> cannot hold block-level children: the parser would close it)
+            let wrapper = *rng.pick(&["div", "p", "blockquote"]);
+            let kid_tags: &[&str] = if wrapper == "p" { &["span", "em"] } else { &["span", "em", "p", "div"] };
             let kids: Vec<Node> = (0..nkids)
                 .map(|k| {
-                    ast::El::with(*rng.pick(&["span", "em", "p", "div"]), vec![Node::Word(format!("Hid{}x{}", added, k))])
+                    ast::El::with(*rng.pick(kid_tags), vec![Node::Word(format!("Hid{}x{}", added, k))])
                         .attr("data-h", "1")
                         .node()
                 })
                 .collect();
-            let block = ast::El::with(*rng.pick(&["div", "p", "blockquote", "dl"]), kids).node();
+            let block = ast::El::with(wrapper, kids).node();
             // directly after the word (no white space in between), or directly before it
             let at = if rng.chance(1, 2) { wi + 1 } else { wi };
             e.children.insert(at, block);
@@ -336,10 +339,23 @@ fn run_case(seed: u64, idx: u64, _tier: Tier, out: &mut CaseOut) {
     let user_css = Sheet(user_rules.clone()).to_css(&mut st);
     let body = ser_canonical(&doc);
     let mut input = Vec::new();
-    if !author_rules.is_empty() {
-        input.extend_from_slice(format!("<style>{}</style>", author_css).as_bytes());
+    if author_rules.len() >= 2 && rng.chance(1, 2) {
+        // two <style> elements at different depths: the first rules deep inside wrappers
+        // at the start of the document, the others after the content (document order of
+        // the elements is the source order of the cascade)
+        let k = rng.range(1, author_rules.len() - 1);
+        let first = Sheet(author_rules[..k].to_vec()).to_css(&mut st);
+        let second = Sheet(author_rules[k..].to_vec()).to_css(&mut st);
+        input.extend_from_slice(format!("<div><div><style>{}</style></div></div>", first).as_bytes());
+        input.extend_from_slice(&body);
+        input.extend_from_slice(format!("<style>{}</style>", second).as_bytes());
+        out.inc("two_style_elements");
+    } else {
+        if !author_rules.is_empty() {
+            input.extend_from_slice(format!("<style>{}</style>", author_css).as_bytes());
+        }
+        input.extend_from_slice(&body);
     }
-    input.extend_from_slice(&body);
     let dom = odom::parse(&input);
     // reference hidden set
     let mut hidden: HashSet<String> = HashSet::new();
